@@ -2,7 +2,7 @@
 //
 //	(a) compile-time sizes  : prog.TypeSizes(std)  (ssa/type.go goProgram.Sizeof/Alignof/Offsetsof, extraSize)
 //	(b) code-generation     : prog.SizeOf / prog.OffsetOf / ABI alignment of the LLVM type prog.Type(t, InGo) builds
-//	(c) descriptor numbers  : ssa/abi Builder.Size/Align/FieldAlign/PtrBytes on the raw type, field offsets as
+//	(c) descriptor numbers  : the program's own ssa/abi Builder (Program.abi): Size/Align/FieldAlign/PtrBytes on the raw type, field offsets as
 //	                          abitype.go abiStructFields takes them (prog.OffsetOf(prog.rawType(t), i)),
 //	                          map KeySize/ValueSize/BucketSize as abiExtendedFields takes them.
 //
@@ -189,7 +189,7 @@ func target(name string) *tgt {
 		panic("no gc sizes for " + parts[1])
 	}
 	sz := prog.TypeSizes(std)
-	t := &tgt{prog: prog, sizes: sz, ab: abi.New(uintptr(prog.PointerSize()), sz),
+	t := &tgt{prog: prog, sizes: sz, ab: ssa.VerifABI(prog), // the compiler's own builder; its Sizes is the same wrapper
 		par: &parser{pkg: types.NewPackage("vp08/"+parts[1], "vp"), nm: map[string]*types.Named{}}}
 	targets[name] = t
 	return t
